@@ -185,21 +185,30 @@ def sub(a: Term, b: Term) -> Term:
 
 
 def mul(*ts: Term) -> Term:
-    """n-ary product; flattens, folds constants, combines equal bases into powers; the constant
-    factor (if any) is kept as the LAST argument."""
+    """n-ary product; flattens, folds constants, combines equal bases into (possibly negative) powers.
+    Reciprocals are kept as div(ONE, base) with a non-product base, so that 1/(a*b) and (1/a)*(1/b)
+    have the same normal form; x * (1/x) cancels (division by zero is a definedness obligation recorded
+    where the division is created).  The constant factor (if any) is the LAST argument."""
     powers: dict[Term, int] = {}
     c = Fraction(1)
     stack = list(reversed(ts))
     while stack:
         t = stack.pop()
-        if t.op == "const":
+        op = t.op
+        if op == "const":
             c *= t.data
             if c == 0:
                 return ZERO
-        elif t.op == "mul":
+        elif op == "mul":
             stack.extend(reversed(t.args))
-        elif t.op == "pow":
+        elif op == "pow":
             powers[t.args[0]] = powers.get(t.args[0], 0) + t.data
+        elif op == "div" and t.args[0] is ONE:
+            d = t.args[1]
+            if d.op == "pow":
+                powers[d.args[0]] = powers.get(d.args[0], 0) - d.data
+            else:
+                powers[d] = powers.get(d, 0) - 1
         else:
             powers[t] = powers.get(t, 0) + 1
     flat: list[Term] = []
@@ -223,14 +232,26 @@ def mul(*ts: Term) -> Term:
     return _mk("mul", flat, None, sort)
 
 
-def div(a: Term, b: Term) -> Term:
+def inv(b: Term) -> Term:
     if b.op == "const":
         if b.data == 0:
             raise ZeroDivisionError("symbolic division by constant zero")
-        return mul(a, const(1 / b.data))
-    if a.op == "const" and a.data == 0:
+        return const(1 / b.data)
+    if b.op == "mul":
+        return mul(*[inv(x) for x in b.args])
+    if b.op == "pow":
+        return _mk("div", (ONE, b), None, "R")
+    if b.op == "div" and b.args[0] is ONE:
+        return b.args[1]
+    if b.op == "div":
+        return mul(b.args[1], inv(b.args[0]))
+    return _mk("div", (ONE, b), None, "R")
+
+
+def div(a: Term, b: Term) -> Term:
+    if a.op == "const" and a.data == 0 and not (b.op == "const" and b.data == 0):
         return ZERO
-    return _mk("div", (a, b), None, "R")
+    return mul(a, inv(b))
 
 
 def powi(a: Term, n: int) -> Term:
